@@ -136,6 +136,13 @@ func TestWorker(t *testing.T) {
 		t.Skip("not a worker invocation")
 	}
 	curT = t
+	if os.Getenv("VERIF_KEEP_STDOUT") == "" {
+		// progress messages of the code under test (ow-sim prints several lines per generation, kernels
+		// print warnings) are of no use here; stderr (panics, race reports) is kept
+		if null, err := os.OpenFile(os.DevNull, os.O_WRONLY, 0); err == nil {
+			os.Stdout = null
+		}
+	}
 	engName := os.Getenv("VERIF_ENGINE")
 	eng := engines[engName]
 	if eng == nil {
